@@ -289,7 +289,28 @@ impl<'a> Explorer<'a> {
         if let Some(e) = self.expected.lock().unwrap().get(a) {
             return e.clone();
         }
-        let e = observe(self.env, &self.env.fresh(a).validate());
+        let res = self.env.fresh(a).validate();
+        // intrinsic check of the reference itself, once per abstract state: every range of every
+        // tree must fit the text the id holds (a fresh parser is only a valid reference if it is
+        // not itself served from state shared across parsers, e.g. a cache keyed by normalised text)
+        for (id, c) in a {
+            if let Some(tree) = res.get(&self.env.path(*id)).and_then(|r| r.ast.as_ref()) {
+                let mut errs = Vec::new();
+                super::rangecheck::check_tree_ranges(content(*c), tree, &mut errs);
+                if let Some(e) = errs.first() {
+                    let hist: Vec<Op> = a.iter().map(|(i, c)| Op::Add(*i, *c)).collect();
+                    let mut case = history_case(&hist);
+                    case.expect["intrinsic"] = json!(true);
+                    case.kind = "reference-ranges".into();
+                    self.stats.violation(Violation {
+                        case,
+                        message: format!("a fresh parser holding {a:?} reports ranges for {} that do not fit its text: {e}", IDS[*id]),
+                        finding_key: None,
+                    });
+                }
+            }
+        }
+        let e = observe(self.env, &res);
         self.expected.lock().unwrap().insert(a.clone(), e.clone());
         e
     }
@@ -409,6 +430,15 @@ pub fn check_case(case: &Case) -> CheckResult {
         .as_array()
         .map(|a| a.iter().filter_map(Op::from_json).collect())
         .unwrap_or_default();
+    let intrinsic = case.expect["intrinsic"].as_bool().unwrap_or(false);
+    if intrinsic {
+        // as in the run that found it, other parsers of the process have seen every content
+        let mut warm: Parser<PathBuf> = Parser::new();
+        for c in 0..CONTENTS.len() {
+            warm.add_content(env.dir.join(format!("warm{c}.aidl")), content(c));
+        }
+        let _ = warm.validate();
+    }
     let mut p: Parser<PathBuf> = Parser::new();
     let mut abs = Abs::new();
     for op in hist {
@@ -430,10 +460,23 @@ pub fn check_case(case: &Case) -> CheckResult {
                 if pruned(&abs) {
                     continue;
                 }
-                let want = observe(&env, &env.fresh(&abs).validate());
+                let fresh = env.fresh(&abs).validate();
+                let want = observe(&env, &fresh);
                 if obs != want {
                     r.fail(format!("after {}: {}", op.text(), diff(&obs, &want)));
                     return r;
+                }
+                if intrinsic {
+                    for (id, c) in &abs {
+                        if let Some(tree) = fresh.get(&env.path(*id)).and_then(|x| x.ast.as_ref()) {
+                            let mut errs = Vec::new();
+                            super::rangecheck::check_tree_ranges(content(*c), tree, &mut errs);
+                            if let Some(e) = errs.first() {
+                                r.fail(format!("a fresh parser holding {abs:?} reports ranges for {} that do not fit its text: {e}", IDS[*id]));
+                                return r;
+                            }
+                        }
+                    }
                 }
             }
         }
